@@ -591,7 +591,7 @@ PROPS["C05"] = {
              "primary-key column, every row's resulting key passes a key-set membership test before the first cell changes, a collision does not "
              "reach the write, and the rows are re-sorted before being written. INSERT: every batch row's key is tested against the key-ordered "
              "map of existing rows and against the batch's own key set before anything is interned or written, a collision does not get that far, "
-             "every batch row is inserted into the map, and what is written is the map's values in key order, untouched. NOT decided here: that "
+             "every batch row is inserted into the map, and what is written is the map's values in key order, untouched. BUILDERS: Insert::row/rows and Update::set store a value only after a function that maps \"\" to Null and nothing else, so the gates see the value that is stored. NOT decided here: that "
              "BTreeMap/HashSet/sort implement their contracts (std); for UPDATE the key vectors tested and sorted by are shown to be built by "
              "mapping over Table::primary_key_indices() (the per-index closure that picks the cell is not walked), for INSERT the key "
              "extraction is not examined; cell validity of inserted rows (C07 decides that gate), is_valid_value itself (C07, engine K), "
